@@ -8,6 +8,7 @@ package kcp
 // (virtual time, sequence) order, so constant-delay paths are FIFO.
 
 import (
+	"golang.org/x/net/ipv4"
 	"container/heap"
 	"errors"
 	"net"
@@ -78,6 +79,7 @@ type simHub struct {
 	stopped bool
 
 	nSent, nDropped, nDup, nDelivered, nNoRoute atomic.Int64
+	batch bool // endpoints created from now on offer batch IO (see simConn.batch)
 }
 
 func newSimHub(fate netFate) *simHub {
@@ -128,6 +130,10 @@ func (h *simHub) stop() {
 
 func (h *simHub) listen(addr net.Addr) *simConn {
 	c := &simConn{hub: h, addr: addr, rq: make(chan simPkt, 1<<16), closed: make(chan struct{}), failRead: make(chan struct{})}
+	if h.batch {
+		c.batch = true
+		c.batchRng = newRng(hashBytes([]byte(addr.String())), 0xba7c4)
+	}
 	h.mu.Lock()
 	h.eps[addr.String()] = c
 	h.mu.Unlock()
@@ -215,6 +221,97 @@ type simConn struct {
 	writeErr  atomic.Value // error
 	overflow  atomic.Int64
 	written   atomic.Int64
+	// batch: sessions and listeners on this endpoint use the library's
+	// recvmmsg/sendmmsg code paths (hook H5 hands them a simBatch)
+	batch      bool
+	batchMu    sync.Mutex
+	batchRng   *vrng
+	batchPlan  func(n int) (accept int, err error) // nil: random prefixes, never an error
+	nBatchW, nBatchPartial, nBatchR, nBatchRMulti atomic.Int64
+}
+
+// simBatch is the batch-IO face of a simConn: ReadBatch blocks for the first
+// datagram and then takes what else is queued (as recvmmsg does), WriteBatch
+// accepts a prefix of the messages (as sendmmsg may).
+type simBatch struct{ c *simConn }
+
+func (b *simBatch) ReadBatch(ms []ipv4.Message, flags int) (int, error) {
+	c := b.c
+	n := 0
+	for n < len(ms) {
+		if n == 0 {
+			k, from, err := c.ReadFrom(ms[0].Buffers[0])
+			if err != nil {
+				return 0, err
+			}
+			ms[0].N, ms[0].Addr = k, from
+			n = 1
+			continue
+		}
+		select {
+		case pkt := <-c.rq:
+			ms[n].N = copy(ms[n].Buffers[0], pkt.data)
+			from := pkt.from
+			if u, ok := from.(*net.UDPAddr); ok {
+				if ip4 := u.IP.To4(); ip4 != nil {
+					from = &net.UDPAddr{IP: ip4, Port: u.Port, Zone: u.Zone}
+				}
+			}
+			ms[n].Addr = from
+			n++
+			continue
+		default:
+		}
+		break
+	}
+	c.nBatchR.Add(1)
+	if n > 1 {
+		c.nBatchRMulti.Add(1)
+	}
+	return n, nil
+}
+
+func (b *simBatch) WriteBatch(ms []ipv4.Message, flags int) (int, error) {
+	c := b.c
+	if len(ms) == 0 {
+		return 0, nil
+	}
+	c.batchMu.Lock()
+	accept := len(ms)
+	var perr error
+	if c.batchPlan != nil {
+		accept, perr = c.batchPlan(len(ms))
+	} else if len(ms) > 1 && c.batchRng != nil && c.batchRng.chance(0.3) {
+		accept = c.batchRng.between(1, len(ms)-1)
+	}
+	c.batchMu.Unlock()
+	if perr != nil {
+		return 0, perr
+	}
+	accept = max(1, min(accept, len(ms)))
+	for i := 0; i < accept; i++ {
+		if _, err := c.WriteTo(ms[i].Buffers[0], ms[i].Addr); err != nil {
+			if i == 0 {
+				return 0, err
+			}
+			accept = i
+			break
+		}
+		ms[i].N = len(ms[i].Buffers[0])
+	}
+	c.nBatchW.Add(1)
+	if accept < len(ms) {
+		c.nBatchPartial.Add(1)
+	}
+	return accept, nil
+}
+
+// h5BatchConn is hook H5.
+func h5BatchConn(conn net.PacketConn) (batchConn, bool) {
+	if c, ok := conn.(*simConn); ok && c.batch {
+		return &simBatch{c}, true
+	}
+	return nil, false
 }
 
 var errSimInjected = errors.New("simnet: injected socket error")
